@@ -341,6 +341,17 @@ class C12(PropBase):
                     if alt.get("canon") == mine:
                         confirmed = True
                         break
+                    if step["op"] == "roundtrip" and step.get("mid"):
+                        # the caches were cleared between the two halves: the marshal half may have followed the
+                        # earlier order and the unmarshal half (built afresh) the step's own, or the other way round
+                        for hyp in (dict(step, t_marshal=cand), dict(step, t=cand, t_marshal=cstep["t"])):  # (with the clears in between)
+                            alt = sess.cold_exec(hyp)
+                            sess.probes["alias_hypotheses_tested"] += 1
+                            if alt.get("canon") == mine:
+                                confirmed = True
+                                break
+                        if confirmed:
+                            break
             sess.violations[-1]["detail"]["alias_confirmed"] = confirmed
 
     # ------------------------------------------------------------------ classification
